@@ -18,6 +18,8 @@ import (
 	"crypto/x509"
 	"encoding/base64"
 	"encoding/json"
+	"crypto/rsa"
+	"encoding/hex"
 	"fmt"
 	"os"
 	"path/filepath"
@@ -141,6 +143,16 @@ func TestVerifC17LdProof(t *testing.T) {
 			{"jws-single-dot", "tampered", "nobody", with(parts[0] + "." + parts[1]), docNoProof, key},
 			{"jws-attached-payload", "tampered", "nobody", with(parts[0] + ".e30." + parts[1]), docNoProof, key},
 			{"jws-three-parts", "tampered", "nobody", with(parts[0] + ".." + parts[1] + ".." + parts[1]), docNoProof, key},
+			{"jws-three-dots", "tampered", "nobody", with(parts[0] + "..." + parts[1]), docNoProof, key},
+			{"jws-four-dots", "tampered", "nobody", with(parts[0] + "...." + parts[1]), docNoProof, key},
+			{"jws-sig-then-dots", "tampered", "nobody", with(parts[0] + ".." + parts[1] + ".."), docNoProof, key},
+			{"jws-only-dots", "truncated", "nobody", with(".."), docNoProof, key},
+			{"sig-lf-inside", "reencoded", "signer", with(parts[0] + ".." + parts[1][:10] + "\n" + parts[1][10:]), docNoProof, key},
+			{"sig-crlf-end", "reencoded", "signer", with(parts[0] + ".." + parts[1] + "\r\n"), docNoProof, key},
+			{"sig-space-inside", "tampered", "nobody", with(parts[0] + ".." + parts[1][:10] + " " + parts[1][10:]), docNoProof, key},
+			{"sig-std-alphabet", "tampered", "nobody", with(parts[0] + ".." + strings.NewReplacer("-", "+", "_", "/").Replace(parts[1]) + "+"), docNoProof, key},
+			{"sig-one-extra-char", "tampered", "nobody", with(parts[0] + ".." + parts[1] + "A"), docNoProof, key},
+			{"sig-dropped-char", "truncated", "nobody", with(parts[0] + ".." + parts[1][:len(parts[1])-1]), docNoProof, key},
 			{"jws-empty", "truncated", "nobody", with(""), docNoProof, key},
 			{"key-other-ec", "forged", "nobody", valid, docNoProof, &otherEC.PublicKey},
 			{"key-other-ed25519", "forged", "nobody", valid, docNoProof, otherEd},
@@ -189,6 +201,20 @@ func TestVerifC17LdProof(t *testing.T) {
 			verd["keyalg"] = ""
 			if aerr == nil {
 				verd["keyalg"] = string(alg)
+			}
+			// the model computes parts / signature decoding / derived algorithm itself from these
+			verd["jwshex"] = hex.EncodeToString([]byte(v.proof.JWS))
+			switch k := v.key.(type) {
+			case nil:
+				verd["keykind"] = "nil"
+			case *ecdsa.PublicKey:
+				verd["keykind"], verd["keybits"] = "ecdsa", k.Params().BitSize
+			case ed25519.PublicKey:
+				verd["keykind"] = "ed25519"
+			case *rsa.PublicKey:
+				verd["keykind"] = "rsa"
+			default:
+				verd["keykind"] = "other"
 			}
 			sp := strings.Split(v.proof.JWS, "..")
 			verd["parts"] = len(sp)
